@@ -74,6 +74,7 @@ mod verif {
         while p < 3 { active_nodes.insert(PeerId(if alive[p] { p as u8 } else { 100 + p as u8 }), (since[p], p)); node_heartbeats.insert(PeerId(p as u8), Instant(kani::any())); p += 1; }
         let m = TopologyManager { partition_replicas, active_nodes, node_heartbeats };
         let r = m.get_available_replicas(7);
+        kani::cover!(r.len() == MAXN && r[0].1 == r[1].1, "reachable: all replicas active, a tie on alive_since");
         // exactly the active replicas
         let mut expect = 0;
         let mut j = 0;
